@@ -185,6 +185,15 @@ def cases(rng, tier):
                 yield Case(program=prog, stdin="in\n", tag='site-' + site)
                 if rng.random() < 0.3:
                     yield Case(program=render(wrap_try(raw("(" + prog + ")"))), stdin="in\n", tag='site-' + site + '-try', monitor='c04_caught')
+    # (8b) results too large to allocate: a shift by 2^63 − 1 … 2^63 bits, directly, folded, and as a ㄱㄹ continuation's work — a
+    #      language exception (fixed defect aca8922: the host's MemoryError escaped)
+    SH = "(ㅂ ㅂㄷ ㅈ ㅂㅎㄹ)"
+    for big in (2 ** 63, 2 ** 63 - 1, 2 ** 62):
+        b = gen.enc(big)
+        for prog in (f"{b} {b} {SH} ㅎㄷ", f"({b} {b} ㅁㄹㅎㄷ) {SH} ㅅㄹㅎㄷ", f"ㄴ {b} {SH} ㅎㄷ",
+                     f"({b} ㄱㅅㅎㄴ) (ㄱㅇㄱ ㄱㅇㄱ {SH} ㅎㄷ ㄱㅅㅎㄴ ㅎ) ㄱㄹㅎㄷ"):
+            yield Case(program=prog, stdin="in\n", tag='too-large')
+            yield Case(program=render(wrap_try(raw("(" + prog + ")"))), stdin="in\n", tag='too-large-try', monitor='c04_caught')
     # (9) the standard streams closed behind the interpreter's back (ㄱㄴ on descriptor 0 / 1, then ㄷ): in a child process
     yield Case(program="ㄱ", tag='std-closed', monitor='c04_std_closed', skip_model=True, timeout=120)
     # (7) random program texts
